@@ -29,6 +29,7 @@ Step(e) ==
     [] e.act = "Export"      -> Export(e.d, e.force)
 
 Post(e) ==
+  /\ Chk("RenderSucceeds", e.act \in {"Render", "RenderPatch"} => e.rc = 0)     \* (a project the tools wrote themselves renders)
   /\ Chk("ConfigurationOnDisk", cfg' = e.cfg_id)
   /\ Chk("SourcesOnDisk", tree' \in ToSetOf(e.tree_ids))
   /\ Chk("SummaryOnDisk", summ' \in ToSetOf(e.summ_ids))
